@@ -46,7 +46,7 @@ func eval(t *testing.T) func(in []*big.Int) ([]*big.Int, []*big.Int) {
 					case RRemoteRemove:
 						w.RemoteRemove(r[1], r[2], r[3])
 					case RMetaSync:
-						w.MetaSync(r[1])
+						w.MetaSync(r[1], len(r) > 2 && r[2] != 0)
 					case RRaceDispose:
 						w.RaceDispose(r[1], r[2])
 					}
@@ -137,7 +137,7 @@ func genCase(r *hx.Rand, p profile) []*big.Int {
 	for i := 0; i < n; i++ {
 		x := r.Intn(100)
 		switch {
-		case x < 30:
+		case x < 25:
 			pod := 1 + r.Intn(npods)
 			if busy[pod] {
 				continue
@@ -152,28 +152,47 @@ func genCase(r *hx.Rand, p profile) []*big.Int {
 			open = append(open, rid)
 			busy[pod] = true
 			holds[pod] = true
-		case x < 30+p.cancel:
+		case x < 25+p.cancel:
 			if len(open) > 0 {
 				recs = append(recs, []int{RCancel, open[r.Intn(len(open))]})
 			}
-		case x < 45+p.cancel:
+		case x < 38+p.cancel:
 			pod := 1 + r.Intn(npods)
 			if holds[pod] {
 				recs = append(recs, []int{RRelease, pod, 0, 0, 0})
 				delete(busy, pod)
 			}
-		case x < 70+p.cancel:
+		case x < 59+p.cancel:
+			if r.Chance(1, 8) {
+				// the cloud carries out an assign call and its metadata is read before the answer comes back
+				sl := 1 + r.Intn(ns)
+				recs = append(recs, []int{RComplete, sl, OEarly}, []int{RMetaSync, sl})
+				if r.Chance(1, 2) {
+					recs = append(recs, []int{RComplete, sl, outcome()})
+				}
+				continue
+			}
+			if r.Chance(1, 6) {
+				// the call's answer arrives while a metadata read of the same interface is under way
+				recs = append(recs, []int{RMetaSync, 1 + r.Intn(ns), 1})
+				continue
+			}
 			recs = append(recs, []int{RComplete, 1 + r.Intn(ns), outcome()})
 			for k := range busy { // a completed call may finish requests; be conservative only for releases
 				_ = k
 			}
-		case x < 80+p.cancel:
+		case x < 67+p.cancel:
 			recs = append(recs, []int{RAdvance, []int{100, 300, 300, 1000, 61000, 130000, 601000}[r.Intn(7)]})
-		case x < 80+p.cancel+p.balance:
+		case x < 67+p.cancel+p.balance:
 			recs = append(recs, []int{RSyncPool})
-		case x < 80+p.cancel+p.balance+p.remote:
+		case x < 67+p.cancel+p.balance+p.remote:
 			recs = append(recs, []int{RRemoteRemove, 1 + r.Intn(ns), []int{4, 6}[r.Intn(2)], r.Intn(8), 0})
 		default:
+			if r.Chance(1, 3) {
+				// the metadata read overlaps the answer of the slot's outstanding call
+				recs = append(recs, []int{RMetaSync, 1 + r.Intn(ns), 1})
+				continue
+			}
 			recs = append(recs, []int{RMetaSync, 1 + r.Intn(ns)})
 		}
 		if r.Chance(1, 6) { // let requests finish so that pods become free again
